@@ -280,6 +280,16 @@ pub fn run(ctx: &Ctx) -> i32 {
             col.fail(f);
         }
     });
+    // JSON tables through every driver (files split, pipe, CRLF, CSV / text, command line, follow mode incl. fragmented appends)
+    {
+        let def = "CREATE TABLE t('^(.)' => first TEXT, { .a } => a INT, { .b.c } => bc TEXT DEFAULT 'd', { .l[1] } => l1 REAL, { .ts } => ts TIMESTAMP CONVERT);";
+        let input: Vec<String> = vec!["{\"a\":1,\"b\":{\"c\":\"x\"},\"l\":[1,2.5]}".into(), "not json".into(), "{\"a\":null,\"ts\":\"2021-01-01 00:00:01\"}".into(), " {\"a\": 3} ".into(), "".into(), "{\"a\":4,\"l\":[0]}".into(), "{\"a\":\"é\",\"b\":{\"c\":\"ü\"}}".into()];
+        let mut cases: Vec<(String, String, Vec<String>, bool)> = Vec::new();
+        for st in ["SELECT * FROM t", "SELECT a, bc FROM t WHERE a > 1", "SELECT bc, COUNT(*), SUM(a) FROM t GROUP BY bc", "SELECT input FROM t WHERE l1 IS NOT NULL", "SELECT DISTINCT bc FROM t", "SELECT a FROM t LIMIT 2"] {
+            cases.push((def.to_string(), st.to_string(), input.clone(), true));
+        }
+        crate::drivers::run_layer(&col, &cases, &|_| "json-table".to_string());
+    }
     col.layer("spec pairs x documents", done2, complete2, json!({"specs": sub.len(), "documents": dsub.len()}));
     col.sample(json!({"columns": [spec_sql(sub[0], "c0"), spec_sql(sub[1], "c1")], "line": "{\"a\":{\"b\":1}}"}));
     finish(
